@@ -808,6 +808,32 @@ class Instrs(CallsMixin):
             return db is not None and db not in body
         return False
 
+    def loopinv_value(self, st, fr, o, body):
+        """value of operand o if it is the same in every iteration of the loop with the given
+        body: defined before the loop, or a load from a variable cell that the loop never stores to
+        (variables captured by closures live in such cells)"""
+        if o is None:
+            return None
+        if self.defined_outside(fr, o, body):
+            try:
+                return self.operand(st, fr, o)
+            except Exception:
+                return None
+        if o['k'] == 'reg':
+            d = self.def_instr(fr, o['name'])
+            if d and d['op'] == 'UnOp' and d.get('uop') == '*' and d['x']['k'] == 'reg':
+                a = self.def_instr(fr, d['x']['name'])
+                if a and a['op'] == 'Alloc' and self.def_block(fr, d['x']['name']) not in body:
+                    for bi in body:
+                        for ins in fr.cfg.blocks[bi]['instrs']:
+                            if ins['op'] == 'Store' and ins['addr'].get('name') == d['x']['name']:
+                                return None
+                    cell = st.regs.get(d['x']['name'])
+                    if cell is None or not any(l.ref.eq(cell.term) for l in st.locals):
+                        return None
+                    return st.load(st.ptr_loc(cell), facts=False)
+        return None
+
     def def_block(self, fr, name):
         dm = getattr(fr, 'defmap', None)
         if dm is None:
